@@ -198,8 +198,15 @@ class BuiltinMixin:
                 c = v.copy()
                 c.kind = "bytes"
                 return c
-            if isinstance(v, int):
+            if isinstance(v, int) and not isinstance(v, bool):
+                if v < 0:
+                    self.py_raise("ValueError")
                 return ListV([0] * v, elem="int", kind="bytes")
+            if is_z3(v) and z3.is_int(v):
+                # bytes(n): n zero bytes; ValueError for a negative count
+                if self.run.branch(v < 0):
+                    self.py_raise("ValueError")
+                return list_repeat(ListV([0], elem="int", kind="bytes"), v)
             raise Unsupported("bytes()")
         if name == "iter":
             v = args[0]
